@@ -166,6 +166,19 @@ pub fn run(out: &mut Out, tier: &str, seed: u64, _corpus: Option<&str>) {
             one(out, fi, &data, w, h, (1.min(w - 1), 1.min(h - 1), w - 1.min(w - 1), h - 1.min(h - 1)), to, prec, 3, 1, 0xFF, false);
         }
     }
+    // tall rectangles: more than 255 rows (row counters of the rect paths must not be narrower than the rectangle)
+    let tall: &[(Format, u32, u32)] = &[(Format::BC1_UNORM, 9, 300), (Format::BC4_UNORM, 5, 270), (Format::ASTC_6X5_UNORM, 7, 290), (Format::R8G8_B8G8_UNORM, 6, 300),
+        (Format::NV12, 4, 280), (Format::R8G8B8A8_UNORM, 3, 300), (Format::BC7_UNORM, 4, 520)];
+    for &(format, w, h) in tall {
+        let fi = id_of(format);
+        let data = random_data(fi, w, h, &mut rng);
+        for k in 0..(if thorough { 6 } else { 2 }) {
+            let to = CHANNELS[(k + 2) % 4]; let prec = PRECS[k % 3];
+            let x = rng.below(w as u64) as u32; let y = rng.below(6) as u32;
+            one(out, fi, &data, w, h, (x, y, w - x, h - y - rng.below(3) as u32), to, prec, k % 2, k % 3, if k % 2 == 0 { 0xFF } else { 0 }, false);
+            out.count("tall_rect");
+        }
+    }
     // wide rows crossing the 3072-byte conversion buffer: widths around 3072 / bytes-per-pixel for every precision
     let wide: &[(Format, u32)] = &[(Format::R8G8B8A8_UNORM, 770), (Format::R8_UNORM, 3075), (Format::R16_UNORM, 1540), (Format::R32G32B32A32_FLOAT, 195), (Format::B5G6R5_UNORM, 1030),
         (Format::BC1_UNORM, 772), (Format::BC4_UNORM, 3080), (Format::R8G8_B8G8_UNORM, 1026), (Format::NV12, 1026), (Format::R1_UNORM, 3100), (Format::BC7_UNORM, 260), (Format::ASTC_5X4_UNORM, 1031)];
